@@ -133,11 +133,13 @@ def mk_timer(width, values=None, core=None, name=None):
     top = (1 << width) - 1
     vals = list(values) if values is not None else (list(range(1 << width)) if width <= 4 else [0, 1, 2, top])
     small = [0, 1, 2, 3, 5, 8, 13]
+    edges = sorted({v & top for k in range(1, width + 1) for v in ((1 << k) - 1, 1 << k, (1 << k) + 1)})
 
     def gen(rng, t):
         regime = (t // 61) % 4
         pen = (0.9, 0.5, 0.98, 0.7)[regime]
-        pick = lambda: (rng.choice(small) if rng.random() < 0.8 else rng.choice([top, top - 1, rng.getrandbits(width)])) & top
+        pick = lambda: (rng.choice(small) if rng.random() < 0.75 else
+                        rng.choice([top, top - 1, rng.getrandbits(width), rng.choice(edges), rng.choice(edges)])) & top
         return (pick(), pick() if rng.random() < 0.6 else 0, 1 if rng.random() < pen else 0, 1 if rng.random() < 0.2 else 0)
 
     return PInst(name or "Timer(width=%d)" % width, core, "timer %d" % width,
@@ -202,11 +204,15 @@ def mk_watchdog(width, delay, values=None, with_halted=True, with_crg=True, core
     top = (1 << width) - 1
     vals = list(values) if values is not None else (list(range(1 << width)) if width <= 4 else [0, 1, 2, top])
 
+    wedges = sorted({v & top for k in range(1, width + 1) for v in ((1 << k) - 1, 1 << k)})
+
     def gen(rng, t):
-        regime = (t // 83) % 4
+        regime = ((t // max(83, 3 * delay)) + (2 if delay > 50 else 0)) % 4
         pfeed = (0.02, 0.2, 0.0, 0.05)[regime]
         pen = (0.95, 0.8, 1.0, 0.5)[regime]
-        cyc = rng.choice([0, 1, 2, 3, 7, 12]) if rng.random() < 0.85 else rng.getrandbits(width)
+        cyc = rng.choice([0, 1, 2, 3, 7, 12]) if rng.random() < 0.8 else rng.choice([rng.getrandbits(width), rng.choice(wedges)])
+        if regime == 2 and delay > 50:
+            return (0, 1, 1, 0, 0, 0)                       # long uninterrupted timeout in reset mode
         return (1 if rng.random() < pfeed else 0, 1 if rng.random() < pen else 0, 1 if rng.random() < 0.7 else 0,
                 1 if rng.random() < 0.5 else 0, 1 if rng.random() < 0.15 else 0, cyc & top)
 
@@ -250,7 +256,7 @@ def mk_waittimer(t):
 
     def gen(rng, t_):
         if t_ % (3 * t + 7) == 0:
-            state["p"] = rng.choice([0.5, 0.9, 0.99, 1.0])
+            state["p"] = rng.choice([0.5, 0.9, 0.99, 1.0]) if t < 200 else rng.choice([1.0, 1.0, 1.0 - 0.5 / t])
         return (1 if rng.random() < state["p"] else 0,)
 
     return PInst("WaitTimer(%d)" % t, core, "waittimer %d" % t, [core.wait], [core.done], [(0,), (1,)], gen,
@@ -335,13 +341,16 @@ class PwmMonitor:
         return msg
 
 
-def mk_pwm(values=None, wide=False, csr=False):
+def mk_pwm(values=None, wide=False, csr=False, fixed=None):
+    """`fixed=(period, width)`: constant large values, enabled throughout (the counter must really reach them)."""
     from litex.soc.cores.pwm import PWM
     core = PWM(with_csr=csr)
     vals = list(values) if values is not None else [0, 1, 2, 3]
     state = {"w": 1, "p": 4}
 
     def gen(rng, t):
+        if fixed:
+            return (0 if t == 0 else 1, 0, fixed[1], fixed[0])      # one disabled cycle defines the phase
         if t % 53 == 0:
             state["p"] = rng.choice([1, 2, 3, 5, 8, 17]) if not wide or rng.random() < 0.7 else rng.getrandbits(32)
             state["w"] = rng.randint(0, state["p"] + 1) if rng.random() < 0.9 else rng.getrandbits(32)
@@ -350,7 +359,8 @@ def mk_pwm(values=None, wide=False, csr=False):
 
     ins = [core._enable.storage, core.reset, core._width.storage, core._period.storage] if csr else \
         [core.enable, core.reset, core.width, core.period]
-    return PInst("PWM%s%s" % ("/32b" if wide else "", ",with_csr" if csr else ""), core, "pwm", ins,
+    return PInst("PWM%s%s%s" % ("/32b" if wide else "", ",with_csr" if csr else "",
+                                ",period=%d,width=%d" % fixed if fixed else ""), core, "pwm", ins,
                  [core.pwm], prod((0, 1), (0, 1), vals, vals), gen, lambda l, o: l[0] and not l[1],
                  monitor=PwmMonitor)
 
@@ -950,7 +960,8 @@ class SpiMasterMonitor:
       - MOSI at rising edge i is bit (width-1-i | length-1-i) of the word given at start (raw | aligned);
       - the received word (low `length` bits, MSB first) equals the MISO values sampled in the cycle before each
         rising edge of the pad clock;
-      - done returns (within (length + 2) * div + 2 cycles) and irq pulses exactly once, in the last cycle;
+      - chip select is asserted at most div + 2 cycles after start (the divider's next fall strobe), done returns within
+        (length + 2) * div + 2 cycles and irq pulses exactly once, in the last cycle;
       - chip selects (`ncs` lines): during a transfer exactly the lines selected in `cs` are low; outside transfers (automatic
         mode) every line is high; in manual mode (`cs_mode = 1`) cs_n is the registered complement of `cs`."""
 
@@ -1043,6 +1054,12 @@ class SpiMasterMonitor:
                     msg = msg or "clock high for %d cycles, expected %d" % (x["high"], x["div"] - x["div"] // 2)
             if msg is None and irq and not (x["falls"] == x["len"]):
                 msg = "irq after %d of %d pulses" % (x["falls"], x["len"])
+            if msg is None and not x.get("cs_seen"):
+                if not cs_n:
+                    x["cs_seen"] = True
+                elif x["t"] > x["div"] + 2:
+                    msg = "chip select not asserted %d cycles after start (divider %d): the transfer does not begin" % (
+                        x["t"], x["div"])
             if msg is None and x["t"] > (x["len"] + 2) * x["div"] + 2:
                 msg = "transfer of %d bits with divider %d not finished after %d cycles" % (x["len"], x["div"], x["t"])
         if done or (start and x["t"] > 1 and x.get("irq_seen")):
@@ -1080,13 +1097,15 @@ class SpiMasterInst(PInst):
     `default_div=(sys_clk_freq, spi_clk_freq)` leaves the divider at the value the constructor computes - the letters
     then carry ceil(sys/spi), computed here from the constructor arguments."""
 
-    def __init__(self, dw, aligned, alphabet=None, divs=(2, 3, 4, 5), tag="", ncs=1, csr=False, default_div=None):
+    def __init__(self, dw, aligned, alphabet=None, divs=(2, 3, 4, 5), tag="", ncs=1, csr=False, default_div=None,
+                 max_len=None, pstarts=None):
         import math
         from litex.soc.cores.spi.spi_master import SPIMaster
         pads = Record([("clk", 1), ("cs_n", ncs), ("mosi", 1), ("miso", 1)])
         sysf, spif = default_div if default_div else (1e6, 1e6 / 4)
         core = SPIMaster(pads, dw, sysf, spif, with_csr=csr, mode="aligned" if aligned else "raw")
         self.dw, self.aligned, self.ncs = dw, aligned, ncs
+        self.max_len, self.pstarts = max_len or dw, pstarts
         self.divs = [math.ceil(sysf / spif)] if default_div else list(divs)
         self._skip_div = bool(default_div)
         if csr:
@@ -1115,7 +1134,9 @@ class SpiMasterInst(PInst):
         n.settle()
 
     def sample(self):
-        return [self.netlist.getu(sig) for sig in self._outs]
+        o = [self.netlist.getu(sig) for sig in self._outs]
+        self._done_out = o[3]
+        return o
 
     def monitor(self):
         return SpiMasterMonitor(self.dw, self.aligned, self.ncs)
@@ -1126,21 +1147,32 @@ class SpiMasterInst(PInst):
     def gen(self, rng, t):
         if t == 0:
             self._div = rng.choice(self.divs)
-        if t == 0 or self._st is None or t % 997 == 0:
+        if t == 0:
+            self._done_out, self._due = 1, False
+        if t % 997 == 0:
+            self._due = True
+        # disturbances (register changes while busy, CS glitches) are rare enough that most transfers, also the long
+        # ones of large dividers, run undisturbed; a new regime starts only while the core is idle
+        f = min(1.0, 100.0 / (self._div * (self.max_len + 2)))
+        if t == 0 or self._st is None or (self._due and self._done_out):
+            self._due = False
             div = self._div
             self._st = {"div": div, "lb": 1 if rng.random() < 0.3 else 0,
-                        "pstart": rng.choice([1.0 / (3 * self.dw * div), 0.2, 0.8]),
+                        "pstart": rng.choice(self.pstarts or [1.0 / (3 * self.max_len * div), 0.2, 0.8]),
                         "sticky": rng.random() < 0.5,      # registers constant for the whole regime (overlapping starts)
-                        "len": rng.randint(1, self.dw), "word": rng.getrandbits(self.dw)}
+                        "len": rng.randint(1, self.max_len), "word": rng.getrandbits(self.dw)}
         st = self._st
         start = 1 if rng.random() < st["pstart"] else 0
-        if not st["sticky"] and (start or rng.random() < 0.01):
-            st["len"] = rng.randint(1, self.dw) if rng.random() < 0.97 else rng.choice([0, self.dw + 1, 255])
+        # software writes new length / word with a start issued while the core is idle (rarely also while it is busy)
+        if not st["sticky"] and ((start and self._done_out) or rng.random() < 0.002 * f):
+            st["len"] = rng.randint(1, self.max_len) if rng.random() < 0.97 else rng.choice([0, self.dw + 1, 255])
+            if self.max_len < self.dw:
+                st["len"] = min(st["len"], self.max_len) or 1
             st["word"] = rng.getrandbits(self.dw)
         if "cs" not in st:
             st["cs"] = rng.randrange(1, 1 << self.ncs)
-        cs = st["cs"] if rng.random() < 0.998 else rng.randrange(0, 1 << self.ncs)
-        csm = 1 if rng.random() < 0.002 else 0
+        cs = st["cs"] if rng.random() >= 0.002 * f else rng.randrange(0, 1 << self.ncs)
+        csm = 1 if rng.random() < 0.002 * f else 0
         return (start, st["len"], st["word"], cs, csm, st["lb"], st["div"], rng.randint(0, 1))
 
 
@@ -1232,13 +1264,15 @@ class SpiSlaveInst(PInst):
     """letter = (pads.clk, pads.cs_n, pads.mosi, miso (word to send), loopback)
        outputs = (pads.miso, start, length, done, irq, mosi (word received))"""
 
-    def __init__(self, dw, alphabet=None, wellformed=True):
+    def __init__(self, dw, alphabet=None, wellformed=True, long_frames=False):
         from litex.soc.cores.spi.spi_slave import SPISlave
+        self.long_frames = long_frames
         pads = Record(SPISlave.pads_layout)
         core = SPISlave(pads, dw)
         self.dw = dw
         self.wellformed = wellformed
-        PInst.__init__(self, "SPISlave(%d)%s" % (dw, "" if wellformed else "/random pins"), core, "spislave %d" % dw,
+        PInst.__init__(self, "SPISlave(%d)%s%s" % (dw, "" if wellformed else "/random pins",
+                                                   "/frames up to 300 bits" if long_frames else ""), core, "spislave %d" % dw,
                        [pads.clk, pads.cs_n, pads.mosi, core.miso, core.loopback],
                        [pads.miso, core.start, core.length, core.done, core.irq, core.mosi], alphabet, None,
                        lambda l, o: (not l[1]) or o[4])
@@ -1254,6 +1288,8 @@ class SpiSlaveInst(PInst):
                     1 if rng.random() < 0.1 else 0)
         if not self._script:
             n = rng.randint(1, self.dw) if rng.random() < 0.9 else rng.randint(0, 2 * self.dw)
+            if self.long_frames and rng.random() < 0.5:
+                n = rng.choice([255, 256, 257, rng.randint(200, 300)])
             half = rng.choice([3, 3, 4, 7])
             word = rng.getrandbits(max(n, 1))
             s = [(0, 0, 0)] * rng.randint(3, 6)
@@ -1357,6 +1393,8 @@ class I2cMonitor:
 
     def __init__(self, load):
         self.rd = I2cReadDecoder()
+        self.t = 0
+        self.last_scl_change = None      # cycle of the last SCL change while continuously busy
         self.prev_idle = 0
         self.prev = None
         self.since_cmd = None
@@ -1382,6 +1420,16 @@ class I2cMonitor:
                     msg = "STOP condition on the bus without a stop command"
             if psda != sda and pscl != scl and scl:
                 msg = "SCL rises and SDA changes in the same cycle"
+        # SCL timing: while the machine stays busy its steps are clk2x ticks, load + 1 cycles apart
+        if self.prev is not None and self.prev[0] != scl:
+            if msg is None and self.last_scl_change is not None and load == self.load and \
+                    (self.t - self.last_scl_change) % (self.load + 1) != 0:
+                msg = "SCL changed %d cycles after its previous change, divider period is %d" % (
+                    self.t - self.last_scl_change, self.load + 1)
+            self.last_scl_change = self.t
+        if idle or load != self.load:
+            self.last_scl_change = None
+        self.t += 1
         self.prev = (scl, sda)
         # READ decoding: the strobe is accepted when the machine showed idle in the previous cycle
         if self.rd.active:
@@ -1532,6 +1580,8 @@ class I2cPadMonitor:
 
     def __init__(self):
         self.rd = I2cReadDecoder()
+        self.t = 0
+        self.last_scl_change = None  # cycle of the last SCL pad change while busy, unstretched, divider unchanged
         self.expect = None           # byte that bus.dat_r must show in the next cycle
         self.prev_adr0 = 1
         self.prev = None
@@ -1554,6 +1604,14 @@ class I2cPadMonitor:
                 else:
                     msg = "SDA %d->%d while SCL %d->%d (no %s requested)" % (
                         psda, sda, pscl, scl, "start" if sda == 0 else "stop")
+        if p is not None and p[0] != scl and escl and p[2]:
+            if msg is None and self.last_scl_change is not None and (self.t - self.last_scl_change) % (self.load + 1) != 0:
+                msg = "SCL changed %d cycles after its previous change, divider period is %d" % (
+                    self.t - self.last_scl_change, self.load + 1)
+            self.last_scl_change = self.t
+        if idle or not escl or (cyc and stb and we and adr0):
+            self.last_scl_change = None
+        self.t += 1
         self.prev = (scl, sda, escl, esda)
         wr_x = bool(cyc and stb and we and not back and not adr0)
         if self.expect is not None:
